@@ -300,7 +300,8 @@ class Check:
         if self.tier not in ("quick", "thorough"):
             self.tier = "quick"
         self.seed = int(seed if seed is not None else os.environ.get("VERIF_SEED", "1"))
-        self.level = level
+        self.level = level if level in ("exploration", "fault_enumeration", "model_checking", "proof",
+                                        "translation_validation", "other") else "proof"
         self.rng = random.Random(self.seed)
         self.t0 = time.time()
         self.obligs = []          # {name, kind, ok, detail}
@@ -442,8 +443,31 @@ class Check:
                            "seed": self.seed, "tier": self.tier, "replay": f["replay"]}, fh, indent=1, default=str)
             tail = "" if f["found_input"] else " no-failing-input-found"
             lines.append("VIOLATION property=%s replay=%s%s" % (self.prop, os.path.relpath(rp, VERIF), tail))
-        nob = len(self.obligs)
-        ndis = sum(1 for o in self.obligs if o["ok"])
+        # obligations that fail ONLY because of a recorded (open) known finding are listed separately:
+        # they are neither counted as obligations of this run nor as discharged
+        known_obl = set(f["obligation"] for f in self.failures if any(k.get("key") == f["key"] for k in known))
+        bad_obl = set(f["obligation"] for f in self.failures if not any(k.get("key") == f["key"] for k in known))
+        def tied(name, names):
+            # the obligation name given to fail() may be a prefix of the recorded obligation's name (or vice versa)
+            return any(name == n or name.startswith(n) or n.startswith(name) for n in names)
+        counted, kf_list = [], []
+        for o in self.obligs:
+            if not o["ok"] and tied(o["name"], known_obl) and not tied(o["name"], bad_obl):
+                kf_list.append(dict(o, known_finding=True))
+            else:
+                counted.append(o)
+        # an obligation that failed without any failure having been reported is an inconsistency of the
+        # check itself: never let it pass silently
+        orphan = [o["name"] for o in counted if not o["ok"] and not tied(o["name"], bad_obl)]
+        if orphan and viol == 0:
+            viol += 1
+            rp = os.path.join(REPLAYS, "%s-undischarged-obligations.json" % self.prop)
+            with open(rp, "w") as fh:
+                json.dump({"property": self.prop, "what": "obligations not discharged and no failure reported for them",
+                           "obligations": orphan}, fh, indent=1)
+            lines.append("VIOLATION property=%s replay=%s no-failing-input-found" % (self.prop, os.path.relpath(rp, VERIF)))
+        nob = len(counted)
+        ndis = sum(1 for o in counted if o["ok"])
         cov = {
             "obligations": nob, "discharged": ndis,
             "checker_cmd": self.checker_cmd or "python3 tools/check.py %s --tier %s" % (self.prop, self.tier),
@@ -451,7 +475,9 @@ class Check:
             "evaluations": self.evaluations, "distinct_nontrivial": self.nontrivial,
             "rule": self.rule, "samples": self.samples or [o["name"] for o in self.obligs[:8]],
             "exhaustive": self.exhaustive,
-            "obligation_list": self.obligs,
+            "obligation_list": counted,
+            "known_finding_obligations": kf_list,
+            "known_findings_reported": [l for l in lines if l.startswith("KNOWN-FINDING")],
             "residues": self.residues,
         }
         cov.update(self.extra)
